@@ -47,7 +47,7 @@ func (f Frame) Encode() []byte {
 
 // Fault is injected into one container's stream or open call.
 type Fault struct {
-	Kind string `json:"kind"` // none | open | cut | readerr
+	Kind string `json:"kind"` // none | open | cut | readerr | closeerr
 	Ctr  int    `json:"ctr"`  // index into the inventory (1-based)
 	Pos  int    `json:"pos"`  // byte offset in the (filtered) stream for cut / readerr
 	// Round restricts the fault to the n-th SelectLogs (ContainerList) call, 0 = every round.
@@ -387,6 +387,10 @@ func (r *fakeReader) Close() error {
 	defer r.d.mu.Unlock()
 	r.d.closed[r.id]++
 	r.d.ev("Close", F{"reader": r.id, "ctr": r.ctr, "times": r.d.closed[r.id]})
+	if r.d.faultFor("closeerr", r.ctr, r.round) != nil {
+		// the reader IS closed, but says so with an error: nobody may stop closing the others because of it
+		return errors.New("fake: close failed")
+	}
 	return nil
 }
 
